@@ -175,6 +175,14 @@ def unit_misc(unit):
             for fk, (f0, _) in VALS.items():
                 run(f"fillna", {"values": a, "fill": f0}, lambda: Vector(list(a)).fillna(f0))
             run("fillna", {"values": a, "fill": None}, lambda: Vector(list(a)).fillna(None))
+        # casts of TEXT that looks like values of other kinds (dates with and without a time of day, numerals, booleans, blanks):
+        # whatever a cast accepts, the vector it returns holds elements of the kind it reports
+        texts = ["2024-03-02", "2024-03-02T08:30:00", "2024-03-04 17:45:10", "2024-03-02T00:00:00", "5", "2.5", "1e3", "True", "false", " 7 ", "", "1+2j", "0x10", "nan"]
+        for n_ in (1, 2):
+            for combo in itertools.product(texts, repeat=n_):
+                for tgt in (int, float, str, bool, complex, date, datetime, bytes):
+                    run(f"cast.{tgt.__name__}.text", {"values": list(combo), "target": tgt.__name__}, lambda: Vector(list(combo)).cast(tgt))
+                    run(f"cast.{tgt.__name__}.text", {"values": list(combo) + [None], "target": tgt.__name__}, lambda: Vector(list(combo) + [None]).cast(tgt))
         # vectors holding instances of subclasses of the ladder kinds (an int subclass, an IntEnum member, str / float / date /
         # tuple subclasses), alone and next to plain values, in both orders
         from props.c04 import IntSub, FloatSub, StrSub, DateSub, TupleSub, Colour
